@@ -21,6 +21,8 @@ AttrChoicesFull == {
     << [a |-> "cssclass"] >>,
     << [a |-> "scriptcall", n |-> "onclick"], [a |-> "const", n |-> "title", v |-> "k1"] >>,
     << [a |-> "scriptcall", n |-> "onclick"], [a |-> "scriptcall", n |-> "onfocus"] >>,
+    << [a |-> "cond", c |-> "C1", then |-> << [a |-> "const", n |-> "title", v |-> "k1"] >>, else |-> << [a |-> "scriptcall", n |-> "onclick"] >>] >>,
+    << [a |-> "cond", c |-> "C2", then |-> << [a |-> "scriptcall", n |-> "onfocus"] >>, else |-> << >>] >>,
     << [a |-> "url", u |-> "U1"] >>,
     << [a |-> "const", n |-> "title", v |-> "k1"], [a |-> "url", u |-> "U2"] >>,
     << [a |-> "style", e |-> "T1"] >>,
